@@ -1,4 +1,6 @@
 SPECIFICATION TSpec
+CONSTANTS
+  Props = {"C11"}
 INVARIANT Done
 POSTCONDITION AllConsumed
 CHECK_DEADLOCK FALSE
